@@ -14,7 +14,10 @@ Composition of three components that are represented here by what their own prop
 
 `finish` is the tail of `flushResponse`: `if req.Close { conn.Close() }`.  `extClose` is any close that
 does not come from the close decision (peer reset, deadline, parse error, engine stop, failed write).
-Nondeterminism = the order of the actions (an arbitrary `List Act`, disabled actions are skipped).
+Between `Conn.Write` and the peer sits the conn's write list (M1, C01/C04): `wire` is what the kernel
+took, `pending` what is still queued, `flush` the poller moving it on; a close releases the queue.
+Nondeterminism = the order of the actions and the kernel's answers (an arbitrary `List Act`, disabled
+actions are skipped).
 Core Lean only (linked into `pipedrv`). -/
 namespace Pipeline
 
@@ -104,20 +107,25 @@ structure St (α : Type) where
   next     : Nat                         -- index of the next request the parser will complete
   queue    : List Nat                    -- jobs accepted by Execute and not yet finished (FIFO, C05)
   cur      : Option (List (List α))      -- remaining conn writes of the running job (head of `queue`)
-  wire     : List α                      -- bytes accepted by the conn, in order
+  wire     : List α                      -- bytes the kernel has accepted = what the peer receives, in order
+  pending  : List α                      -- Conn.writeList: taken by Conn.Write, not yet by the kernel (M1)
   closed   : Bool                        -- Conn.closed
   byServer : Bool                        -- ghost: closed by flushResponse's `conn.Close()`
   ext      : Bool                        -- ghost: an `extClose` happened
+  dropped  : Bool                        -- ghost: a close released a non-empty write list
   fin      : Nat                         -- ghost: number of jobs finished
   handled  : List Nat                    -- ghost: handlers invoked, in order
 
+/-- `write none`: the kernel takes the whole buffer; `write (some k)`: a short write, it takes k bytes
+    and `Conn.write` queues the rest.  `flush k`: the poller's EPOLLOUT flush moves k queued bytes to
+    the kernel. -/
 inductive Act where
-  | parse | start | write | finish | extClose
+  | parse | start | write (k : Option Nat) | flush (k : Nat) | finish | extClose
   deriving Repr, DecidableEq
 
 def init {α} : St α :=
-  { next := 0, queue := [], cur := none, wire := [], closed := false, byServer := false, ext := false,
-    fin := 0, handled := [] }
+  { next := 0, queue := [], cur := none, wire := [], pending := [], closed := false, byServer := false,
+    ext := false, dropped := false, fin := 0, handled := [] }
 
 def step {α} (cfg : Cfg α) (s : St α) : Act → Option (St α)
   | .parse =>
@@ -134,20 +142,38 @@ def step {α} (cfg : Cfg α) (s : St α) : Act → Option (St α)
       | some r => some { s with cur := some r.pieces, handled := s.handled ++ [k] }
       | none => none
     | _, _ => none
-  | .write =>
-    -- one `conn.Write` of the running job; on a closed conn it fails and nothing reaches the wire
+  | .write k =>
+    -- one `conn.Write` of the running job.  On a closed conn it fails and nothing is taken.  Otherwise
+    -- `Conn.write`: with an empty write list the kernel is tried first and the unsent rest is queued;
+    -- behind a backlog the whole buffer is queued.
     match s.cur with
-    | some (p :: ps) => some { s with cur := some ps, wire := if s.closed then s.wire else s.wire ++ p }
+    | some (p :: ps) =>
+      if s.closed then some { s with cur := some ps }
+      else if s.pending.isEmpty then
+        let n := match k with | none => p.length | some k => k
+        some { s with cur := some ps, wire := s.wire ++ p.take n, pending := p.drop n }
+      else some { s with cur := some ps, pending := s.pending ++ p }
     | _ => none
+  | .flush k =>
+    -- the poller flushes part of the backlog
+    if !s.closed && !s.pending.isEmpty && k > 0 then
+      some { s with wire := s.wire ++ s.pending.take k, pending := s.pending.drop k }
+    else none
   | .finish =>
-    -- tail of flushResponse: `if req.Close { conn.Close() }`, then the drainer's `next`
+    -- tail of flushResponse: `if req.Close { conn.Close() }`, then the drainer's `next`.
+    -- `Close` = closeWithError: the write list is released, whatever it still holds is never sent.
     match s.cur, s.queue with
     | some [], k :: q =>
       let cl := match cfg.reqs[k]? with | some r => r.close | none => false
+      let closing := cl && !s.closed
       some { s with cur := none, queue := q, fin := s.fin + 1,
-                    closed := s.closed || cl, byServer := s.byServer || (cl && !s.closed) }
+                    closed := s.closed || cl, byServer := s.byServer || closing,
+                    pending := if closing then [] else s.pending,
+                    dropped := s.dropped || (closing && !s.pending.isEmpty) }
     | _, _ => none
-  | .extClose => some { s with closed := true, ext := true }
+  | .extClose =>
+    some { s with closed := true, ext := true, pending := [],
+                  dropped := s.dropped || !s.pending.isEmpty }
 
 def run {α} (cfg : Cfg α) : St α → List Act → St α
   | s, [] => s
@@ -175,13 +201,13 @@ def willClose {α} (cfg : Cfg α) : Bool := cfg.reqs.any Req.close
 
 /-! ### a canonical schedule for the driver (any schedule gives the same wire: theorem `c10_pipeline`) -/
 
-/-- run to quiescence with a round-robin over the non-ext actions; `sched` picks the preferred action
-    order per round (used by the driver to exercise different interleavings) -/
+/-- run to quiescence: first the preferred actions (`pref`, from the K line — exercises different
+    interleavings and short writes), then round-robin over the connection's own actions -/
 def drain {α} (cfg : Cfg α) : Nat → St α → List Act → St α
   | 0, s, _ => s
   | f + 1, s, pref =>
     let s1 := run cfg s pref
-    let s2 := run cfg s1 [.parse, .start, .write, .finish]
-    if s2.next == cfg.reqs.length && s2.queue.isEmpty then s2 else drain cfg f s2 []
+    let s2 := run cfg s1 [.parse, .start, .flush 1000000, .write none, .finish]
+    if s2.next == cfg.reqs.length && s2.queue.isEmpty && s2.pending.isEmpty then s2 else drain cfg f s2 []
 
 end Pipeline
